@@ -138,7 +138,38 @@ def Totals (A : Agg) (rs : List Rec) : Prop :=
 def recsOf : List Seg → List Rec
   | [] => []
   | Seg.batch rs :: rest => rs ++ recsOf rest
+  | Seg.batchNoDump rs :: rest => rs ++ recsOf rest
   | Seg.restart :: rest => recsOf rest
+
+/-- Is the state file up to date (= the dump of the in-memory aggregation) after these segments, given that
+    it was (`f`) before?  A successful non-empty `Run` makes it so, a `Run` whose dump failed makes it stale. -/
+def freshAfter : Bool → List Seg → Bool
+  | f, [] => f
+  | f, Seg.batch rs :: rest => freshAfter (f || !rs.isEmpty) rest
+  | f, Seg.batchNoDump rs :: rest => freshAfter (f && rs.isEmpty) rest
+  | _, Seg.restart :: rest => freshAfter true rest
+
+/-- Every restart finds an up-to-date file.  (A process that dies while records exist only in memory loses
+    them whatever the code does; the property is about what the code can guarantee.) -/
+def RestartsFresh : Bool → List Seg → Prop
+  | _, [] => True
+  | f, Seg.batch rs :: rest => RestartsFresh (f || !rs.isEmpty) rest
+  | f, Seg.batchNoDump rs :: rest => RestartsFresh (f && rs.isEmpty) rest
+  | f, Seg.restart :: rest => f = true ∧ RestartsFresh true rest
+
+/-- the same run with every flush succeeding -/
+def clearFaults : List Seg → List Seg
+  | [] => []
+  | Seg.batchNoDump rs :: rest => Seg.batch rs :: clearFaults rest
+  | s :: rest => s :: clearFaults rest
+
+def noRestart : List Seg → Bool
+  | [] => true
+  | Seg.restart :: _ => false
+  | _ :: rest => noRestart rest
+
+/-- a batch with the outcome of its flush (`true` = the dump fails) -/
+def segOf (b : List Rec × Bool) : Seg := if b.2 then Seg.batchNoDump b.1 else Seg.batch b.1
 
 /-! ### Observations -/
 
@@ -224,17 +255,31 @@ def segsC (u : String) : List (List Char) := splitCh '/' (trimC u.toList)
 def dedupL (l : List (List Char)) : List (List Char) :=
   l.foldl (fun acc s => if acc.contains s then acc else acc ++ [s]) []
 
-/-- F15c class: some URL prefix has more than `thr` distinct next segments (so the tree will replace them
-    by an inferred path parameter) and at least one of them has deeper URLs below it (so whole SUBTREES
-    are merged: later insertions can converge again without `NormalizeTree` signalling it, and inner
-    inferred parameters are renamed).  Declared endpoints count as URLs. -/
-def deepFanout (thr : Nat) (urls : List String) : Bool :=
-  let us := urls.map segsC
+def isTemplateSeg (g : List Char) : Bool := g.head? = some '{' && g.getLast? = some '}'
+
+/-- F15c class: some URL prefix `P` has more than `thr` distinct next segments (so the tree will replace them
+    by an inferred path parameter), with deeper URLs below them (so whole SUBTREES are merged), and the merged
+    node inherits at least one CONSTANT child: a segment two levels below `P` that is not a `{template}` and
+    that the tree keeps as a constant — it is declared as such, or its parent has no declared `{param}` child
+    that would absorb it.  Only then can a later insertion below the merged node converge again without
+    `NormalizeTree` signalling it, or an inner inferred parameter be renamed over valueless nodes.
+    Declared endpoints (`known`) count as URLs. -/
+def deepFanout (thr : Nat) (known urls : List String) : Bool :=
+  let ks := known.map segsC
+  let us := ks ++ urls.map segsC
   us.any fun u =>
     (List.range u.length).any fun i =>
       decide (1 ≤ i) &&
       (let under := us.filter fun v => v.take i == u.take i && decide (i < v.length)
-       decide (thr < (dedupL (under.filterMap (·[i]?))).length) && under.any fun v => decide (i + 2 ≤ v.length))
+       let constCapable := fun (v : List (List Char)) =>
+         match v[i + 1]? with
+         | none => false
+         | some g =>
+           !isTemplateSeg g &&
+           (ks.any (fun k => k.take (i + 2) == v.take (i + 2)) ||
+            !(ks.any fun k => k.take (i + 1) == v.take (i + 1) &&
+                (match k[i + 1]? with | some kg => isTemplateSeg kg | none => false)))
+       decide (thr < (dedupL (under.filterMap (·[i]?))).length) && under.any constCapable)
 
 /-- What an observer reconstructs from a state file: its content read back, times in whole seconds;
     entries merged per method (URL replaced by `*`) when the run contained a restart. -/
@@ -259,7 +304,9 @@ def holds (c : CaseObs) : Bool :=
 
 /-- Which known finding (if any) explains a failing case. -/
 def finding (c : CaseObs) : Option String :=
-  if deepFanout c.thr (c.known ++ (external c.recs).map (·.url)) then some "F15c"
+  -- F15c explains statistics that depend on the batch boundaries, never traffic that is missing
+  if c.runs.all (fun o => o.nondet || (o.fails == 0 && conserves c.recs o)) &&
+      deepFanout c.thr c.known ((external c.recs).map (·.url)) then some "F15c"
   else none
 
 end LunarVerif.C15
